@@ -758,8 +758,12 @@ class BaseProperty(base.BaseObject):
         if self.unit is None and other.unit is not None:
             self.unit = other.unit
 
+        # merge_check has already compared the dtypes of both Properties; re-inferring
+        # a dtype from the first value (as a strict extend does) would refuse e.g. a
+        # 'string' value containing a line break after other Properties of the same
+        # Section tree have already been merged.
         to_add = [v for v in other.values if v not in self._values]
-        self.extend(to_add, strict=strict)
+        self.extend(to_add, strict=False)
 
     def unmerge(self, other):
         """
